@@ -33,7 +33,7 @@ var c03Ops = func() []string {
 
 func genC03(t *rapid.T) C03Case {
 	op := rapid.SampledFrom(c03Ops).Draw(t, "op")
-	cfg := prog.SingleCfg{MaxRank: 6, MaxDim: 4, MaxElems: 256, Expand: true, Wild: true}
+	cfg := prog.SingleCfg{MaxRank: 6, MaxDim: 4, MaxElems: 600, Expand: true, Wild: true}
 	genOp := op
 	if op == "equals" {
 		genOp = "eq"
